@@ -420,6 +420,28 @@ pub fn polyline_points(d: &mut Dec, maxn: u32, r: i32) -> Vec<Point> {
         };
         v.push(p);
     }
+    // auxiliary words 5 and 6: one polyline in 32 gets 250..=300 further vertices (a random walk with
+    // steps up to 3 px, with repeats and reversals): vertex counts beyond 255
+    if d.aux_u(5, 0, 31) == 31 {
+        let mut x = d.aux_u(6, 0, u32::MAX) | 1;
+        let mut next = move || {
+            x ^= x << 13;
+            x ^= x >> 17;
+            x ^= x << 5;
+            x
+        };
+        let extra = 250 + next() % 51;
+        let mut p = v.last().copied().unwrap_or(Point::zero());
+        for _ in 0..extra {
+            let k = next();
+            p = match k % 9 {
+                0 => p,
+                1 if v.len() >= 2 => v[v.len() - 2],
+                _ => Point::new((p.x + (k >> 8) as i32 % 7 - 3).clamp(-r, r), (p.y + (k >> 16) as i32 % 7 - 3).clamp(-r, r)),
+            };
+            v.push(p);
+        }
+    }
     v
 }
 
